@@ -42,7 +42,11 @@ type fullCfg struct {
 	Wait       bool   `json:"wait_for_result"`
 	NoQueue    bool   `json:"no_queue"`
 	Shape      string `json:"error_shape"` // plain | wrapped (%w) | joined with a plain error
+	// Block: block_on_overflow; producers then wait for space instead of being refused, also while Shutdown drains
+	Block bool `json:"block_on_overflow,omitempty"`
 }
+
+type fullProdKey struct{}
 
 type fullReq struct {
 	n              int
@@ -52,6 +56,10 @@ type fullReq struct {
 	err            error
 	beforeShutdown bool // Consume returned before the shutdown event fired
 	task           *simkit.Task
+	cancel         context.CancelFunc
+	// yieldWoken: when this request's producer is woken from the wait for space, it parks before re-taking the queue
+	// mutex and continues as an event of its own (the other order - the producer first - is the unparked one)
+	yieldWoken bool
 }
 
 type fullSim struct {
@@ -60,6 +68,7 @@ type fullSim struct {
 	cfg            fullCfg
 	ad             *sigAdapter
 	be             *backend
+	yg             *simkit.Gate
 	exp            simExporter
 	tel            *componenttest.Telemetry
 	disk           *Disk
@@ -141,6 +150,15 @@ func fullConfig(tp *simkit.Tape, prop string) fullCfg {
 		c.NoQueue = true
 		c.Wait = false
 	}
+	if !c.NoQueue && prop != "C05" && tp.Chance(1, 4) {
+		c.Block = true
+		switch c.Sizer {
+		case "requests":
+			c.Cap = int64(tp.Range(1, 3))
+		case "items":
+			c.Cap = int64(tp.Range(6, 14))
+		}
+	}
 	return c
 }
 
@@ -161,6 +179,7 @@ func (s *fullSim) build(inc *Incarnation) (simExporter, error) {
 	qc.QueueSize = cfg.Cap
 	qc.NumConsumers = cfg.Consumers
 	qc.WaitForResult = cfg.Wait
+	qc.BlockOnOverflow = cfg.Block
 	if cfg.Persistent {
 		sid := storageID
 		qc.StorageID = &sid
@@ -206,6 +225,18 @@ func runFull(r *simkit.Run, prop string) {
 	s := &fullSim{r: r, prop: prop, cfg: cfg, ad: adapterByName(cfg.Signal), ids: &gen.IDs{Prefix: "i"}, tel: componenttest.NewTelemetry(), disk: NewDisk()}
 	s.be = newBackend(s.ad, func() int64 { return time.Now().UnixNano() })
 	s.be.evNow = func() int { return r.Events }
+	s.yg = simkit.NewGate()
+	if cfg.Block {
+		queuebatch.VerifYield = func(ctx context.Context, site string) {
+			if site != "cond.woken.signal" {
+				return
+			}
+			if q, _ := ctx.Value(fullProdKey{}).(*fullReq); q != nil && q.yieldWoken {
+				s.yg.Park(fmt.Sprintf("yield:req%d", q.n))
+			}
+		}
+		defer func() { queuebatch.VerifYield = nil }()
+	}
 	inc := s.disk.NewIncarnation(1)
 	exp, err := s.build(inc)
 	if err != nil {
@@ -227,6 +258,10 @@ func runFull(r *simkit.Run, prop string) {
 			ch = append(ch, simkit.Choice{Name: "shutdown", W: 1, Fire: s.fireShutdown})
 		}
 		s.answerChoices(&ch)
+		for _, id := range s.yg.Parked() {
+			id := id
+			ch = append(ch, simkit.Choice{Name: "release:" + id, W: 2, Fire: func() { s.yg.Release(id, nil) }})
+		}
 		ch = append(ch, simkit.Choice{Name: "advance:backoff", W: 1, Fire: func() { time.Sleep(fullBackoff) }})
 		if cfg.Batch != "none" {
 			ch = append(ch, simkit.Choice{Name: "advance:flush", W: 1, Fire: func() { time.Sleep(time.Duration(cfg.FlushS) * time.Second) }})
@@ -264,6 +299,24 @@ func runFull(r *simkit.Run, prop string) {
 		s.cleanup()
 		return
 	}
+	// producers still waiting for space (block_on_overflow): the parked ones continue, then every caller that has not
+	// returned gives up (its context ends)
+	for _, id := range s.yg.Parked() {
+		id := id
+		r.Fire("late-release:"+id, func() { s.yg.Release(id, nil) })
+		s.observe("late-release")
+	}
+	for _, q := range s.reqs {
+		if !q.task.Done() {
+			q := q
+			r.Count("probe.producer_still_blocked_after_shutdown")
+			r.Fire(fmt.Sprintf("caller-gives-up:req%d", q.n), func() { q.cancel() })
+			s.observe("caller-gives-up")
+			if !q.task.Done() {
+				r.Failf("liveness", "cancelled-caller-not-released", "request %d: the caller's context ended but Consume did not return", q.n)
+			}
+		}
+	}
 	// tail: nothing may start after Shutdown returned
 	for i := 0; i < 4; i++ {
 		r.Fire("tail-advance", func() { time.Sleep(30 * time.Second) })
@@ -284,6 +337,10 @@ func runFull(r *simkit.Run, prop string) {
 func (s *fullSim) cleanup() {
 	for i := 0; i < 100; i++ {
 		s.r.Settle()
+		s.yg.ReleaseAll(nil)
+		for _, q := range s.reqs {
+			q.cancel()
+		}
 		if s.shut == nil {
 			s.shut = simkit.Go("shutdown", func(t *simkit.Task) { t.Err = s.exp.Shutdown(context.Background()) })
 		}
@@ -357,7 +414,10 @@ func (s *fullSim) offer() {
 	s.reqs = append(s.reqs, q)
 	s.given += int64(len(q.items))
 	s.r.Logf("  request %d: %d items", q.n, len(q.items))
-	q.task = simkit.Go(fmt.Sprintf("req%d", q.n), func(t *simkit.Task) { t.Err = s.exp.Consume(context.Background(), payload) })
+	q.yieldWoken = s.cfg.Block && s.r.Tape.Chance(1, 2)
+	ctx, cancel := context.WithCancel(context.WithValue(context.Background(), fullProdKey{}, q))
+	q.cancel = cancel
+	q.task = simkit.Go(fmt.Sprintf("req%d", q.n), func(t *simkit.Task) { t.Err = s.exp.Consume(ctx, payload) })
 }
 
 func (s *fullSim) fireShutdown() {
@@ -604,7 +664,7 @@ var fullStub = []string{"backend (parks; answered ok / transient / permanent / p
 
 var HarnessC03 = simkit.Harness{
 	Prop: "C03", Name: "exp/c03", Run: runC03, StepTimeout: 10e9, Real: fullReal, Stub: fullStub,
-	Rule: "one run = one tape-drawn exporter configuration (signal, memory|persistent queue, batcher none|queue|legacy, sizer, capacity, consumers, retry, timeout, min/max/flush) and one schedule of offer / backend answer (ok|transient|permanent|partial) / clock advance (back-off, flush, export timeout) events in which the shutdown event is enabled at every step; after Shutdown returns the run continues for a tail period; persistent runs are followed by a drain incarnation on the same disk; distinct = distinct event-log hash; non-trivial = at least one step happened while Shutdown was in progress or >=2 exports were in flight",
+	Rule: "one run = one tape-drawn exporter configuration (signal, memory|persistent queue, batcher none|queue|legacy, sizer, capacity, consumers, block_on_overflow, retry, timeout, min/max/flush) and one schedule of offer / release of a producer parked between its wake-up for space and the queue mutex / backend answer (ok|transient|permanent|partial) / clock advance (back-off, flush, export timeout) events in which the shutdown event is enabled at every step; after Shutdown returns the run continues for a tail period; persistent runs are followed by a drain incarnation on the same disk; distinct = distinct event-log hash; non-trivial = at least one step happened while Shutdown was in progress or >=2 exports were in flight",
 }
 
 func runC19(r *simkit.Run) {
